@@ -85,6 +85,12 @@ Clauses(e, n) ==
                   HistEvMatches(lhist'[p][Len(old) + i], expHist[p][Len(expHist[p]) - new + i]) >>,
     << T("C04", "queue"), \A p \in ps : p \in DOMAIN expQueue /\ queue'[p] = expQueue[p] >>,
     << T("C04", "batch"), Ident(e.fills) = Ident(expFills) >>,
+    \* a fill lands in the portfolio the order was submitted to: otherwise the submitting portfolio's cash and
+    \* holdings miss one of ITS fills (and another portfolio's move without an order of its own)
+    << T("C01", "fill-portfolio"), c.op = "update" => \A k \in 1..Len(e.fills) :
+         e.fills[k].pid \in DOMAIN queue /\ \E j \in 1..Len(queue[e.fills[k].pid]) : queue[e.fills[k].pid][j].oid = e.fills[k].oid >>,
+    << T("C02", "fill-portfolio"), c.op = "update" => \A k \in 1..Len(e.fills) :
+         e.fills[k].pid \in DOMAIN queue /\ \E j \in 1..Len(queue[e.fills[k].pid]) : queue[e.fills[k].pid][j].oid = e.fills[k].oid >>,
     << T("C05", "price"), \A k \in 1..Len(e.fills) :
          LET f == e.fills[k] IN c.op = "update" =>
            /\ (f.qty > 0 => f.px = quote[f.asset].ask) /\ (f.qty < 0 => f.px = quote[f.asset].bid) >>,
